@@ -53,6 +53,7 @@ Definition op_eqb (a b : op) : bool :=
   | OOpen f n c e t, OOpen f' n' c' e' t' => Nat.eqb f f' && Nat.eqb n n' && Bool.eqb c c' && Bool.eqb e e' && Bool.eqb t t'
   | OOpenDir f, OOpenDir f' => Nat.eqb f f'
   | OWrite f d, OWrite f' d' => Nat.eqb f f' && bytes_eqb d d'
+  | OWriteAt f o d, OWriteAt f' o' d' => Nat.eqb f f' && Nat.eqb o o' && bytes_eqb d d'
   | OFsync f, OFsync f' => Nat.eqb f f'
   | OClose f, OClose f' => Nat.eqb f f'
   | ORename s t, ORename s' t' => Nat.eqb s s' && Nat.eqb t t'
@@ -60,7 +61,7 @@ Definition op_eqb (a b : op) : bool :=
   | _, _ => false
   end.
 Definition chunks_of (ops : list op) : list bytes :=
-  flat_map (fun o => match o with OWrite _ d => [d] | _ => [] end) ops.
+  flat_map (fun o => match o with OWrite _ d | OWriteAt _ _ d => [d] | _ => [] end) ops.
 Definition has_dirsync (ops : list op) : bool :=
   existsb (fun o => match o with OOpenDir _ => true | _ => false end) ops.
 
@@ -73,7 +74,10 @@ Fixpoint points_from (k : nat) (ops : list op) : list (nat * Z) :=
   match ops with
   | [] => [(k, (-1)%Z)]
   | o :: t => (k, (-1)%Z) ::
-              match o with OWrite _ d => map (fun p => (k, Z.of_nat p)) (sel_lens d) | _ => [] end
+              match o with
+              | OWrite _ d | OWriteAt _ _ d => map (fun p => (k, Z.of_nat p)) (sel_lens d)
+              | _ => []
+              end
               ++ points_from (S k) t
   end.
 Definition model_of (m : Z) : crash_model := if (m =? 0)%Z then Process else Power.
